@@ -42,7 +42,7 @@ VALUES = [None, True, 1, 1.0, "1", [], {}, [1], [True], {"a": 1}, {"a": True}, "
 
 
 def plan(tier, seed):
-    specs = [{"kind": "flags"}, {"kind": "test-equality"}, {"kind": "scale"}, {"kind": "pointer-subclass"}] + [{"kind": "single", "doc": i, "ops": ops} for i in range(len(DOCS)) for ops in (["add", "replace", "test", "remove"], ["move"], ["copy"])]
+    specs = [{"kind": "flags"}, {"kind": "test-equality"}, {"kind": "scale"}, {"kind": "pointer-subclass"}, {"kind": "move-post-removal"}] + [{"kind": "single", "doc": i, "ops": ops} for i in range(len(DOCS)) for ops in (["add", "replace", "test", "remove"], ["move"], ["copy"])]
     for _ in range(6 if tier == "quick" else 20):
         specs.append({"kind": "sequences", "n": 2500 if tier == "quick" else 60000})
     return specs
@@ -255,6 +255,41 @@ def run(spec, ctx):
         from rt import flag_history
 
         flag_history.run(ctx)
+        return
+    if spec["kind"] == "move-post-removal":
+        # RFC 6902 4.4: a move is a remove followed by an add, so its `path` is read against the document AFTER the source
+        # is gone.  Every source x every location (and one- and two-step extension) of the post-removal document.
+        extra = [[0, {"x": {}}, {"y": {}}], {"a": [0, [], [1]]}, [[1], [2, [3]], {"k": [4]}, 5], {"a": [{"b": [1, 2]}, {"c": {}}, [[]]], "z": {"a": [0]}}]
+        n_ = 0
+        for doc in [d for d in DOCS if isinstance(d, (dict, list))] + extra:
+            for src in paths_for(doc):
+                if not src:
+                    continue
+                try:
+                    after = rp.apply_op(copy.deepcopy(doc), {"op": "remove", "path": rp.encode(src)})
+                except (rp.PatchFail, rp.Unspecified):
+                    continue
+                targets = list(paths_for(after))
+                for t in list(targets):
+                    try:
+                        v_ = rp.resolve(after, t)
+                    except rp.Unresolvable:
+                        continue
+                    if isinstance(v_, dict):
+                        targets += [t + ["k"], t + ["k", "k2"]]
+                    elif isinstance(v_, list):
+                        targets += [t + ["-"], t + [str(len(v_))], t + ["0", "k"]]
+                seen_ = set()
+                for t in targets:
+                    key_ = rp.encode(t)
+                    if key_ in seen_:
+                        continue
+                    seen_.add(key_)
+                    for name in ("move", "copy"):
+                        check(ctx, doc, [{"op": name, "from": rp.encode(src), "path": key_}], "move-post-removal")
+                        n_ += 1
+        ctx.bulk(n_)
+        ctx.count("post_removal_targets", n_)
         return
     if spec["kind"] == "pointer-subclass":
         # names that begin with what a pointer class treats as its key marker, next to the names they would mark
